@@ -14,7 +14,9 @@ def more(tier, seed, w, v, lay, tp):
     mc.append(behaviours("Minecraft.tla", "Gen_Minecraft.cfg", b, "c03_gen"))
     r = vhr(["minecraft-behaviours", "--layouts", lay, "--in", b], 1 if quick else 8, seed, tier, name="c03b")
     v.add_report(r, "auto-detect behaviours")
-    return [r], mc
+    # McText.tla: the Bedrock status tail and the legacy kick string as pure functions, every short string replayed
+    rt, mt = mc_text(PID, tier, w, v)
+    return [r] + rt, mc + mt
 
 
 def run(tier, seed):
